@@ -5,6 +5,8 @@ package c09
 import (
 	"encoding/json"
 	"fmt"
+	"os"
+	"regexp"
 	"runtime"
 	"runtime/debug"
 	"sort"
@@ -28,19 +30,27 @@ type params struct {
 }
 
 func Run(k *report.Check) {
-	k.Rule = "single database tier: every history up to the depth over {write burst (rotates and flushes), Checkpoint, retention update (keep newest / keep two newest), reopen from a retained handle in the same process (old database object dropped or kept alive; same or new directory), forced garbage collection (runtime.GC + cleanup barrier, three rounds)}; after every action every file named by a retained checkpoint's document must exist, a scratch restore of every retained handle on a copy of the files must reproduce the captured map, the live database must scan and point-read correctly (touching every table of its level set), and WAL files referenced only by dropped checkpoints must be gone after the retention update. Neighbour tier: a table shared by operators after a rescale with every combination of neighbour answers {needs it, does not, error, hangs}. non-trivial = distinct (file set, retained ids, live databases) states reached by an execution in which a cleanup deleted at least one file"
-	k.Assumptions = []string{"a forced runtime.GC plus a sentinel cleanup barrier (three rounds) runs every cleanup of unreachable tables: reported deletions are real; completeness depends on the collector finding the garbage", "MemoryFilesystem"}
+	k.Rule = "single database tier: every history up to the depth over {write burst (rotates and flushes), Checkpoint, retention update (keep newest / keep two newest), reopen from a retained handle in the same process (old database object dropped or kept alive; same or new directory), forced garbage collection (runtime.GC + cleanup barrier; two rounds at the end of every execution)}; after every action every file named by a retained checkpoint's document must exist, a scratch restore of every retained handle on a copy of the files must reproduce the captured map, the live database must scan and point-read correctly (touching every table of its level set), and WAL files referenced only by dropped checkpoints must be gone after the retention update. Neighbour tier: a table shared by operators after a rescale with every combination of neighbour answers {needs it, does not, error, hangs}. non-trivial = distinct (file set, retained ids, live databases) states reached by an execution in which a cleanup deleted at least one file"
+	k.Assumptions = []string{"a forced runtime.GC plus a sentinel cleanup barrier runs every cleanup of unreachable tables: reported deletions are real; completeness depends on the collector finding the garbage", "MemoryFilesystem"}
 	k.Budget(150, 1500)
 	cfgs := []dkvh.Options{{Mem: 40, Table: 64, L0: 2, Smallest: 4500, Ampl: 50}}
 	if k.Thorough() {
 		cfgs = append(cfgs, dkvh.Options{Mem: 40, Table: 64, L0: 1, Smallest: 4500, Ampl: 50}, dkvh.Options{Mem: 40, Table: 1, L0: 3, Smallest: 9000, Ampl: 200})
 	}
 	p := params{depth: k.Pick(5, 6), cfgs: cfgs}
-	k.ExploreProc(fmt.Sprintf("single-db/d=%d", p.depth), mc.Config{}, p, single)
+	if os.Getenv("C09_SKIP_SINGLE") == "" { // debugging aid
+		k.ExploreProc(fmt.Sprintf("single-db/d=%d", p.depth), mc.Config{}, p, single)
+	}
+	np := nparams{depth: k.Pick(4, 6), n: 2, groups: 4}
+	k.ExploreProc(fmt.Sprintf("neighbours/n=%d,d=%d", np.n, np.depth), mc.Config{}, np, neighbors)
+	if k.Thorough() {
+		np3 := nparams{depth: 5, n: 3, groups: 6}
+		k.ExploreProc(fmt.Sprintf("neighbours/n=%d,d=%d", np3.n, np3.depth), mc.Config{}, np3, neighbors)
+	}
 }
 
-func gcBarrier() {
-	for i := 0; i < 3; i++ {
+func gcBarrier(rounds int) {
+	for i := 0; i < rounds; i++ {
 		done := make(chan struct{})
 		func() {
 			s := new([64]byte)
@@ -72,6 +82,11 @@ func (sharedOwnership) ExclusivelyOwnsTable(string, []byte, []byte) (bool, error
 	return false, nil
 }
 
+// tableRange is the key range of a table as recorded in a checkpoints document.
+type tableRange struct{ start, end []byte }
+
+var docRanges = map[string]tableRange{} // table uri (as written in the document) -> key range
+
 // filesOf lists the WAL and table URIs of checkpoint id in a checkpoints document.
 func filesOf(doc []byte, id uint64) (wals, tables []string, found bool) {
 	var d struct {
@@ -80,7 +95,10 @@ func filesOf(doc []byte, id uint64) (wals, tables []string, found bool) {
 			WALs []struct {
 				URI string `json:"uri"`
 			} `json:"wals"`
-			Levels [][]struct{ URI string } `json:"levels"`
+			Levels [][]struct {
+				URI              string
+				StartKey, EndKey []byte
+			} `json:"levels"`
 		} `json:"checkpoints"`
 	}
 	if err := json.Unmarshal(doc, &d); err != nil {
@@ -96,6 +114,7 @@ func filesOf(doc []byte, id uint64) (wals, tables []string, found bool) {
 		for _, l := range c.Levels {
 			for _, t := range l {
 				tables = append(tables, t.URI)
+				docRanges[t.URI] = tableRange{t.StartKey, t.EndKey}
 			}
 		}
 		return wals, tables, true
@@ -138,6 +157,13 @@ func checkLive(c *mc.Ctx, l *live, i int) {
 	}()
 }
 
+var execSeq int
+
+// rel strips the per-execution directory prefix from rendered text.
+func rel(s string) string { return xdir.ReplaceAllString(s, "") }
+
+var xdir = regexp.MustCompile(`/x\d+`)
+
 func single(c *mc.Ctx) {
 	p := c.Param.(params)
 	old := debug.SetGCPercent(-1)
@@ -146,11 +172,15 @@ func single(c *mc.Ctx) {
 	c.Op("[%s]", o)
 	dkvh.Tune(o)
 	defer shim.SetLocal(nil)
+	// every execution gets its own directory tree: table file names are process-wide keys in
+	// dkv/sst's bookkeeping and must not collide with uncollected objects of earlier executions
+	execSeq++
+	base := fmt.Sprintf("/x%d", execSeq)
 	root := dkvh.NewFS()
 	dirN := 0
 	// lives: the last one is the live database (read-checked); earlier ones are superseded
 	// database objects that are merely kept reachable (their Table objects are not garbage)
-	lives := []*live{{db: dkv.Open(o.DBOptions(root.WithWorkingDir("/w0")), nil), ref: dkvh.Ref{}, dir: "/w0"}}
+	lives := []*live{{db: dkv.Open(o.DBOptions(root.WithWorkingDir(base+"/w0")), nil), ref: dkvh.Ref{}, dir: base + "/w0"}}
 	cur := func() *live { return lives[len(lives)-1] }
 	var retained []handle
 	var droppedWALs []string
@@ -167,22 +197,22 @@ func single(c *mc.Ctx) {
 		for _, ev := range root.TakeLog() {
 			if strings.HasPrefix(ev.Op, "cleanup-delete") {
 				cleanupDeletes++
-				deleted = append(deleted, strings.TrimPrefix(ev.Op, "cleanup-delete "))
+				deleted = append(deleted, rel(strings.TrimPrefix(ev.Op, "cleanup-delete ")))
 			}
 		}
 		files := root.Snapshot()
 		for _, h := range retained {
 			doc, ok := files[h.h.URI]
 			if !ok {
-				c.FailSig("checkpoint-file-missing", "after %s: the checkpoints file %s of retained checkpoint %d is gone", after, h.h.URI, h.id)
+				c.FailSig("checkpoint-file-missing", "after %s: the checkpoints file %s of retained checkpoint %d is gone", after, rel(h.h.URI), h.id)
 			}
 			wals, tables, found := filesOf(doc, h.id)
 			if !found {
-				c.FailSig("checkpoint-not-in-doc", "after %s: retained checkpoint %d is not in its checkpoints file %s", after, h.id, h.h.URI)
+				c.FailSig("checkpoint-not-in-doc", "after %s: retained checkpoint %d is not in its checkpoints file %s", after, h.id, rel(h.h.URI))
 			}
 			for _, u := range append(wals, tables...) {
 				if _, ok := files[u]; !ok {
-					c.FailSig("needed-file-deleted:"+kindOf(u), "after %s: %s, referenced by retained checkpoint %d, no longer exists (deleted so far: %v)", after, u, h.id, deleted)
+					c.FailSig("needed-file-deleted:"+kindOf(u), "after %s: %s, referenced by retained checkpoint %d, no longer exists (deleted so far: %s)", after, rel(u), h.id, rel(fmt.Sprint(deleted)))
 				}
 			}
 			// scratch restore on a copy of the files, deleting nothing. Only at the end of the
@@ -201,7 +231,7 @@ func single(c *mc.Ctx) {
 					}()
 					saved := dkv.VerifFreshQueues()
 					defer dkv.VerifRestoreQueues(saved)
-					opts := o.DBOptions(dkvh.MemFSFrom(files).WithWorkingDir("/probe"))
+					opts := o.DBOptions(dkvh.MemFSFrom(files).WithWorkingDir(base + "/probe"))
 					opts.DataOwnership = sharedOwnership{}
 					pdb := dkv.Open(opts, []recovery.CheckpointHandle{h.h})
 					pdb.WaitOnTasks()
@@ -225,7 +255,7 @@ func single(c *mc.Ctx) {
 		}
 		sort.Strings(names)
 		if cleanupDeletes > 0 {
-			c.Nontrivial(fmt.Sprint(names, ids, len(lives)))
+			c.Nontrivial(rel(fmt.Sprint(names, ids, len(lives))))
 		}
 	}
 
@@ -293,9 +323,9 @@ func single(c *mc.Ctx) {
 			dir := h.dir
 			if !sameDir {
 				dirN++
-				dir = fmt.Sprintf("/w%d", dirN)
+				dir = fmt.Sprintf("%s/w%d", base, dirN)
 			}
-			c.Op("Reopen(%d, dir=%s, old database %s)", h.id, dir, map[bool]string{true: "dropped", false: "kept alive"}[dropOld])
+			c.Op("Reopen(%d, dir=%s, old database %s)", h.id, strings.TrimPrefix(dir, base), map[bool]string{true: "dropped", false: "kept alive"}[dropOld])
 			var ndb *dkv.DB
 			func() {
 				defer func() {
@@ -325,12 +355,12 @@ func single(c *mc.Ctx) {
 			verify("the reopen")
 		case 9:
 			c.Op("GC")
-			gcBarrier()
+			gcBarrier(1)
 			verify("garbage collection")
 		}
 	}
 	c.Op("GC(final)")
-	gcBarrier()
+	gcBarrier(2)
 	final = true
 	verify("final garbage collection")
 	if cleanupDeletes > 0 {
